@@ -16,7 +16,11 @@ Bin(op, l, r) == [t |-> "bin", op |-> op, l |-> l, r |-> r]
 NegE(a) == [t |-> "neg", a |-> a]
 Cpx(a, b) == [t |-> "cpx", re |-> <<a, 1>>, im |-> <<b, 1>>]
 
+\* integer literals at and beyond the 64-bit boundary (opaque for TLC; the harness writes the literal and compares the value exactly)
+BigInt(a) == [t |-> "atom", k |-> "int", a |-> a]
 Scalars == {
+  [t |-> "var", ty |-> "int", x |-> "a", e |-> BigInt("i62")], [t |-> "var", ty |-> "int", x |-> "a", e |-> BigInt("i63")],
+  [t |-> "var", ty |-> "int", x |-> "a", e |-> BigInt("i64m1")], [t |-> "var", ty |-> "int", x |-> "a", e |-> BigInt("i70")],
   [t |-> "var", ty |-> "int", x |-> "a", e |-> I(3)], [t |-> "var", ty |-> "int", x |-> "a", e |-> NegE(I(2))],
   [t |-> "var", ty |-> "int", x |-> "a", e |-> Bin("+", I(1), Bin("*", I(2), I(3)))],
   [t |-> "var", ty |-> "float", x |-> "b", e |-> F(1, 2)], [t |-> "var", ty |-> "float", x |-> "b", e |-> I(2)],
